@@ -85,7 +85,7 @@ func TestC10(t *testing.T) {
 					t.Fatalf("C10 %s after %s: min/max of an empty sketch returned no error", e.cfg, what)
 				}
 			} else {
-				if e1 != nil || e2 != nil || !obs.FEq(gmin, mn) || !obs.FEq(gmax, mx) {
+				if e1 != nil || e2 != nil || !(gmin == mn) || !(gmax == mx) {
 					t.Fatalf("C10 %s after %s: min/max = (%v,%v) errors (%v,%v), exact (%v,%v)", e.cfg, what, gmin, gmax, e1, e2, mn, mx)
 				}
 			}
@@ -190,10 +190,43 @@ func TestC10(t *testing.T) {
 				srcBefore := e.fullObs(e.s, e.k, e.cfg)
 				ne := e.s.ChangeMapping(m2, kind.Provider(), scale)
 				np := p.s.ChangeMapping(m2, kind.Provider(), scale)
+				// source and result must be independent objects, whatever the scale: mutate the source, then the
+				// result must still report what it reported; the reverse direction is checked with a second conversion
+				snap := func(s obs.SK) [5]float64 {
+					mn, _ := s.GetMinValue()
+					mx, _ := s.GetMaxValue()
+					return [5]float64{s.GetCount(), s.GetSum(), mn, mx, s.GetZeroCount()}
+				}
+				same := func(a, b [5]float64) bool {
+					for i := range a {
+						if !(a[i] == b[i] || a[i] != a[i] && b[i] != b[i]) {
+							return false
+						}
+					}
+					return true
+				}
 				if dyadic {
 					if dd := obs.DiffSketch(e.fullObs(e.s, e.k, e.cfg), srcBefore, obs.DiffOpts{}); dd != "" {
 						t.Fatalf("C10 %s: ChangeMapping changed its receiver: %s", e.cfg, dd)
 					}
+				}
+				probe := e.s.ChangeMapping(m2, kind.Provider(), scale)
+				srcSnap, probeSnap := snap(e.s), snap(probe)
+				_ = probe.AddWithCount(e.safeV*scale, 3)
+				_ = probe.Add(-e.safeV * scale)
+				probe.Clear()
+				if got := snap(e.s); !same(got, srcSnap) {
+					t.Fatalf("C10 %s: operating on the result of ChangeMapping(scale=%v) changed the source: (count,sum,min,max,zero) %v -> %v", e.cfg, scale, srcSnap, got)
+				}
+				resSnap := snap(ne)
+				if !same(resSnap, probeSnap) {
+					t.Fatalf("C10 %s: two conversions of the same sketch differ: %v vs %v", e.cfg, resSnap, probeSnap)
+				}
+				_ = e.s.AddWithCount(e.safeV, 5)
+				_ = e.s.Add(-e.safeV)
+				e.s.Clear()
+				if got := snap(ne); !same(got, resSnap) {
+					t.Fatalf("C10 %s: operating on the source after ChangeMapping(scale=%v) changed the result: (count,sum,min,max,zero) %v -> %v", e.cfg, scale, resSnap, got)
 				}
 				identity := scale == 1 && e.cfg.m.Equals(m2)
 				e.s, p.s = ne, np
@@ -215,7 +248,10 @@ func TestC10(t *testing.T) {
 					lo, hi := m2.Index(1), m2.Index(1)
 					first := true
 					for _, x := range e.k.vals {
-						if a := math.Abs(x.V); a > m2.MinIndexableValue() {
+						// only values well inside every mapping's range steer the window (sub-minimum values that a
+						// scale-up made barely trackable must not drag later adds to the very end of the range,
+						// where ChangeMapping is not specified)
+						if a := math.Abs(x.V); a > 1e-70 && a < 1e70 {
 							i := m2.Index(a)
 							if first || i < lo {
 								lo = i
